@@ -287,6 +287,10 @@ func ElementAtFunc(query *Query, current Map, functionOptions *FunctionOptions, 
 	if err != nil {
 		return nil, err
 	}
+	// like FIRST and LAST: an empty array has no elements to name
+	if len(*slice) == 0 {
+		return nil, nil
+	}
 	indexRaw, err := AsType[float64](args[1])
 	if err != nil {
 		return nil, err
